@@ -17,6 +17,16 @@ class BuiltinMixin:
         if name.startswith('opqm:'):
             return self.opq_call(f.bound, name[5:].split('.', 1)[1], args, kw, node)
         if name == 'object.__init__':
+            o = f.bound
+            if o is not None and o.k == 'obj':
+                h = self.st.heap[o.t]
+                bases = [b for c_ in self.src.mro(h.cls) if c_ in self.src.classes for b in self.src.classes[c_].bases]
+                if any(b in ('defaultdict', 'dict', 'collections.defaultdict') for b in bases) and '__store__' not in h.f:
+                    # a dict subclass: its items live in a store; defaultdict's first argument is the factory of missing values
+                    st_ = HDict({})
+                    if any('defaultdict' in b for b in bases) and args:
+                        st_.default = args[0]
+                    h.f['__store__'] = SV('dict', self.st.alloc(st_))
             return NONE
         if name.startswith('uf:'):
             return self.apply_spec_uf(name[3:], args)
@@ -195,6 +205,8 @@ class BuiltinMixin:
             if isinstance(a.t, B.Items):
                 return VI(len(a.t.items))
             return VI(len(a.t))
+        if a.k == 'obj' and '__store__' in self.st.heap[a.t].f:
+            return self.bi_len([self.st.heap[a.t].f['__store__']], {}, node)
         if a.k == 'obj':
             return self.call_method(a, '__len__', [], {}, node)
         if a.k == 'opq':
@@ -417,6 +429,9 @@ class BuiltinMixin:
             out.insert(pos, (x, kx))
         return SV('list', self.st.alloc(HList([x for x, _ in out])))
 
+    def bi_reversed(self, args, kw, node):
+        return SV('list', self.st.alloc(HList(list(self.iter_concrete(args[0]))[::-1])))
+
     def bi_dict(self, args, kw, node):
         d = {}
         if args:
@@ -576,6 +591,15 @@ class BuiltinMixin:
                 return NONE
             if name == 'extend':
                 h.items.extend(self.iter_concrete(args[0]))
+                return NONE
+            if name == 'insert':
+                i = _conc_int(self.as_int(args[0]))
+                if i is None:
+                    raise Unsupported('list.insert at a symbolic position')
+                h.items.insert(i, args[1])
+                return NONE
+            if name == 'reverse':
+                h.items.reverse()
                 return NONE
             if name == 'copy':
                 return SV('list', self.st.alloc(HList(h.items)))
